@@ -265,5 +265,8 @@ func _extractAssetsWithPrefix(rows *sql.Rows, prefix string) (map[fat2.PTicker]u
 			assets[ticker] = rateValue
 		}
 	}
+	if err := rows.Err(); err != nil {
+		return nil, err
+	}
 	return assets, nil
 }
